@@ -12,6 +12,7 @@ import math
 
 from mc import core
 from mc.gen.docs import NS
+from mc.ref import pathdata as R1
 from mc.ref import scene
 
 ID = "C18"
@@ -114,6 +115,33 @@ def reference_paints(geo, combo, rule, cap="butt"):
     return res
 
 
+def _tiny_cause(d):
+    """attribute a pruned tiny shape: does Skia's own simplify() (below picosvg) turn this very contour, which has a positive
+    signed area, into nothing?  Computed with pathops directly, not through picosvg."""
+    try:
+        import pathops
+
+        sk = pathops.Path(fillType=pathops.FillType.WINDING)
+        for c, a in R1.exploded(R1.parse(d)):
+            if c == "M":
+                sk.moveTo(*a)
+            elif c == "L":
+                sk.lineTo(*a)
+            elif c == "Q":
+                sk.quadTo(*a)
+            elif c == "C":
+                sk.cubicTo(*a)
+            elif c == "Z":
+                sk.close()
+            else:
+                return "other"
+        raw = sk.area
+        sk.simplify(fix_winding=True)
+        return "skia-simplify-collapses-tiny-curve" if (raw > 0 and sk.area == 0 and "Q" in d) else "other"
+    except Exception:
+        return "other"
+
+
 def evaluate(case):
     from picosvg.svg import SVG
 
@@ -152,6 +180,40 @@ def evaluate(case):
                             outs["more-violations"] += 1
                     if sample is None and mp is False and combo[0] == "red":
                         sample = doc
+    elif fam == "tinyunits":
+        # whether a filled shape paints does not depend on the unit of length: squares / triangles / circles of size 10^-k
+        # at the origin (exactly representable for Skia's float32 as long as nothing is added to the small numbers)
+        from picosvg.svg_types import SVGPath
+
+        for k in range(0, 8):
+            u = 10.0 ** -k
+            shapes = {
+                "square": f"M0,0 L{u:.10g},0 L{u:.10g},{u:.10g} L0,{u:.10g} Z",
+                "triangle": f"M0,0 L{3 * u:.10g},0 L0,{2 * u:.10g} Z",
+                "quad": f"M0,0 Q{u:.10g},{2 * u:.10g} {2 * u:.10g},0 Z",
+                "square-rel": f"M0,0 h{u:.10g} v{u:.10g} h{-u:.10g} z",
+            }
+            for name, d in shapes.items():
+                for attrs in ({"fill": "red"}, {"fill": "red", "fill_rule": "evenodd"}, {"style": "fill:blue"}):
+                    n += 1
+                    try:
+                        mp = SVGPath(d=d, **attrs).might_paint()
+                    except Exception as e:  # noqa
+                        outs["raised:" + type(e).__name__] += 1
+                        continue
+                    outs["tiny/" + ("might" if mp else "cannot")] += 1
+                    nts.add(core.h64(d + repr(attrs)))
+                    if not mp:
+                        viols.append({"sig": {"kind": "prunes-painting-shape", "geo": "tiny-" + name, "carrier": "attr", "cause": _tiny_cause(d)}, "case": {"fam": "tiny", "d": d, "attrs": attrs}, "detail": {"why": f"might_paint() is False for the filled {name} {d!r} (size 1e-{k}): it has positive area in its own units"}})
+                doc = f'<svg {NS} viewBox="0 0 {4 * u:.10g} {4 * u:.10g}"><path d="{d}" fill="red"/><path d="M0,0 L{u:.10g},{u:.10g}" fill="red"/></svg>'
+                n += 1
+                try:
+                    out = SVG.fromstring(doc).remove_unpainted_shapes().tostring()
+                    if out.count("<path") != 1:
+                        viols.append({"sig": {"kind": "prunes-painting-shape", "geo": "tiny-" + name, "carrier": "doc", "cause": _tiny_cause(d)}, "case": {"fam": "doc", "doc": doc}, "detail": {"why": f"remove_unpainted_shapes() kept {out.count('<path')} of the 2 paths (exactly the filled {name} paints): {out[:400]}"}})
+                    outs["tiny/doc"] += 1
+                except Exception as e:  # noqa
+                    outs["raised:" + type(e).__name__] += 1
     elif fam == "docs":
         # document level: removing unpainted shapes must not change the rendering
         for doc in case["docs"]:
@@ -262,6 +324,7 @@ def cases(tier, seed):
         else:
             for carrier in ("attr", "style", "mixed"):
                 yield {"fam": "might", "geo": geo, "carriers": [carrier], "fos": OPS, "sos": OPS, "disps": DISPLAYS, "seed": seed}
+    yield {"fam": "tinyunits", "seed": seed}
     docs = doc_family(tier)
     for i in range(0, len(docs), 20):
         yield {"fam": "docs", "docs": docs[i : i + 20], "seed": seed}
@@ -277,7 +340,7 @@ def run(run):
         "contours in opposite / same direction, bow-tie, nested same-direction squares, slivers of area 1e-6 / 1e-9 / 2e-3, open path enclosing area, empty-then-full subpaths, drawing after Z) x "
         "fill {absent, none, colour} x stroke {absent, none, colour} x stroke-width {absent, 0, 1} x opacity, fill-opacity, stroke-opacity in {absent, 0, .5} x display {absent, none, inline} x "
         "carrier {attribute, style, style contradicting attributes} x fill-rule 2 for might_paint(); documents of 2 such shapes in a translucent group + neighbours for remove_unpainted_shapes() "
-        "(rendered by R3 before/after); 12 multi-subpath paths x 6 attribute sets + every sequence of <= 3 (thorough 4) subpaths over 6 atoms (incl. repeated identical contours) x 3 (6) attribute sets for SVGPath.remove_empty_subpaths() (rendered before/after). Oracle: reference 'paints' (visible fill with area > 1e-4 "
+        "(rendered by R3 before/after); 4 filled shapes of size 10^-k (k = 0..7) at the origin (paint must not depend on the unit of length); 12 multi-subpath paths x 6 attribute sets + every sequence of <= 3 (thorough 4) subpaths over 6 atoms (incl. repeated identical contours) x 3 (6) attribute sets for SVGPath.remove_empty_subpaths() (rendered before/after). Oracle: reference 'paints' (visible fill with area > 1e-4 "
         "under the rule, or visible stroke on a path with a segment) must imply might_paint(); 0 < area <= 1e-4 is undecided. Non-trivial = shape that paints per the reference or that the "
         "implementation prunes / documents where something was removed."
     )
